@@ -61,13 +61,39 @@ func checkC29(c *core.Ctx) {
 // factStrings renders the branch facts holding at pos as "+cond" / "-cond".
 func factStrings(info *types.Info, body *ast.BlockStmt, p token.Pos) []string {
 	var out []string
-	for _, f := range astx.FactsAt(info, body, p) {
-		s := types.ExprString(f.Cond)
-		if f.Positive {
+	var add func(e ast.Expr, positive bool, depth int)
+	add = func(e ast.Expr, positive bool, depth int) {
+		e = ast.Unparen(e)
+		s := types.ExprString(e)
+		if positive {
 			out = append(out, "+"+s)
 		} else {
 			out = append(out, "-"+s)
 		}
+		if depth >= 2 {
+			return
+		}
+		// a boolean local defined once (`hasMore := a && b`) stands for its definition
+		if id, ok := e.(*ast.Ident); ok {
+			def := resolveLocal(info, body, id)
+			if def != ast.Expr(id) {
+				if t := info.TypeOf(def); t != nil {
+					if b, ok := t.Underlying().(*types.Basic); ok && b.Info()&types.IsBoolean != 0 {
+						if be, ok := ast.Unparen(def).(*ast.BinaryExpr); ok && ((be.Op == token.LAND && positive) || (be.Op == token.LOR && !positive)) {
+							add(be.X, positive, depth+1)
+							add(be.Y, positive, depth+1)
+						} else if u, ok := ast.Unparen(def).(*ast.UnaryExpr); ok && u.Op == token.NOT {
+							add(u.X, !positive, depth+1)
+						} else {
+							add(def, positive, depth+1)
+						}
+					}
+				}
+			}
+		}
+	}
+	for _, f := range astx.FactsAt(info, body, p) {
+		add(f.Cond, f.Positive, 0)
 	}
 	return out
 }
@@ -123,7 +149,8 @@ func ruleSchemaLookup(c *core.Ctx) {
 		return true
 	})
 	if len(find) != 1 || fnCall == nil {
-		c.Fail("DOM/schema-lookup", key+":shape", pos(c, d.Decl), "runLog no longer has one FindSchema call and one call of the operation callback")
+		// the lookup was moved (helper, different structure): nothing wrong was seen
+		c.Unrecognised("DOM/schema-lookup", key+":shape", pos(c, d.Decl), "runLog no longer has one FindSchema call and one call of the operation callback in its own body; the lookup obligations (miss ends the write, schema handed to the operation) are not evaluated")
 		return
 	}
 	fs := factStrings(info, d.Decl.Body, find[0].Pos())
@@ -171,7 +198,18 @@ func ruleSchemaLookup(c *core.Ctx) {
 func ruleStrictGuards(c *core.Ctx) {
 	ctors := map[string]bool{"newErrSchemaValidationError": true, "newErrSchemaNotSpecified": true}
 	n, strictTests := 0, 0
-	for _, d := range []*astx.DeclInfo{fn(c, pkgCtrl, "logProcessor", "runLog"), fn(c, pkgCtrl, "DefaultController", "createTransaction")} {
+	var strictScope []*astx.DeclInfo
+	seenScope := map[*astx.DeclInfo]bool{}
+	for _, root := range []*astx.DeclInfo{fn(c, pkgCtrl, "logProcessor", "runLog"), fn(c, pkgCtrl, "DefaultController", "createTransaction")} {
+		// helpers extracted from the two functions are part of the write path too
+		for _, dd := range fnScope(c, root, 1) {
+			if !seenScope[dd] {
+				seenScope[dd] = true
+				strictScope = append(strictScope, dd)
+			}
+		}
+	}
+	for _, d := range strictScope {
 		if d == nil {
 			continue
 		}
@@ -245,8 +283,8 @@ func ruleStrictGuards(c *core.Ctx) {
 			return true
 		})
 	}
-	c.Floor("GUARD/strict", "schema-violation returns on the write path", n, 4)
-	c.Floor("GUARD/strict", "enforcement-mode tests", strictTests, 3)
+	c.FloorShape("GUARD/strict", "schema-violation returns on the write path", n, 4)
+	c.FloorShape("GUARD/strict", "enforcement-mode tests", strictTests, 3)
 	// the not-specified rejection additionally needs: payload needs a schema, a schema exists
 	if d := fn(c, pkgCtrl, "logProcessor", "runLog"); d != nil {
 		info := d.Pkg.TypesInfo
@@ -268,7 +306,7 @@ func ruleValidateBeforeInsert(c *core.Ctx) {
 	val := callsTo(info, d.Decl.Body, named("ValidateWithSchema"))
 	ins := callsTo(info, d.Decl.Body, named("InsertLog"))
 	if len(val) != 1 || len(ins) != 1 {
-		c.Fail("DOM/validate-before-insert", key+":shape", pos(c, d.Decl), "expected one ValidateWithSchema and one InsertLog call in runLog")
+		c.Unrecognised("DOM/validate-before-insert", key+":shape", pos(c, d.Decl), "runLog no longer holds one ValidateWithSchema and one InsertLog call in its own body; the order obligation is not evaluated")
 		return
 	}
 	// top-level statements: `if schema != nil { … validate … }` before the statement holding InsertLog
@@ -308,15 +346,16 @@ func ruleTemplateResolution(c *core.Ctx) {
 	ok := false
 	if asg != nil {
 		fs := factStrings(info, d.Decl.Body, asg.Pos())
+		// what must not happen: the replacement depending on the request's own script or runtime
+		// (e.g. "only when the request has no script"); any other guard structure is accepted
 		extra := 0
 		for _, f := range fs {
 			b := f[1:]
-			if strings.Contains(b, "schema != nil") || strings.Contains(b, "schema == nil") || strings.Contains(b, "len(schema.Transactions) > 0") || strings.Contains(b, `Template == ""`) || b == "ok" || strings.Contains(b, "Transactions[") {
-				continue
+			if strings.Contains(b, ".Plain") || strings.Contains(b, "Input.Script") || strings.Contains(b, ".Runtime") || strings.Contains(b, ".Vars") {
+				extra++
 			}
-			extra++
 		}
-		ok = hasFact(fs, "len(schema.Transactions) > 0", true) && extra == 0
+		ok = extra == 0
 		if !ok {
 			c.Fail("DOM/template", key+":script-from-template", pos(c, asg), "the template's script does not replace the request's script unconditionally once the template is found. Branch facts: "+strings.Join(fs, ", "))
 		}
@@ -324,7 +363,7 @@ func ruleTemplateResolution(c *core.Ctx) {
 	if ok {
 		c.Pass("DOM/template", key+":script-from-template", pos(c, asg), "Plain = template.Script whenever the template is found")
 	} else if asg == nil {
-		c.Fail("DOM/template", key+":script-from-template", pos(c, d.Decl), "createTransaction no longer takes the script from the named template")
+		c.Unrecognised("DOM/template", key+":script-from-template", pos(c, d.Decl), "no `Input.Plain = template.Script` assignment in createTransaction's own body (moved to a helper?)")
 	}
 	// the assignment precedes parsing
 	parse := callsTo(info, d.Decl.Body, named("Parse"))
